@@ -67,7 +67,7 @@ def run(rep, work, tier, seed):
     # the stream ends, is closed, or the pulling task is cancelled, that scope is left and the task has finished with it
     from props.c11 import StreamsDriver
     st_invs = ["TypeOK", "SpawnedSettled", "StreamScopeCompletes", "ConsumerIntact"]
-    st = dict(MaxItems=2 if tier == "quick" else 3, Bug="none")
+    st = dict(MaxItems=2 if tier == "quick" else 3, Poll=False, Bug="none")
     leg_m(rep, work, "Streams", f"stream_mc_{tier}", cfg_text(st, invariants=st_invs),
           expect_actions=["Pull", "Release", "EndSpawned", "CancelPull", "Close"])
     leg_r(rep, work, "Streams", f"stream_conf_{tier}", cfg_text(st, invariants=st_invs), StreamsDriver, world=True)
